@@ -545,6 +545,13 @@ func codecBlockCase(c *Ctx, b *nom.AccountBlock) {
 		c.Fail("account block ComputeHash()=%s is not the hash %s of the pre-image layout of the statement :: %s",
 			got, types.NewHash(pre), short(blockStr(b)))
 	}
+	c.Emit("ab-pb %s | %s", blockStr(b), guard(func() string {
+		data, err := b.Serialize()
+		if err != nil {
+			return "err"
+		}
+		return hx(data)
+	}))
 	switch {
 	case b.Amount == nil:
 		c.Hit("ab-amount-nil")
@@ -578,6 +585,13 @@ func codecMomentumCase(c *Ctx, m *nom.Momentum, blocks []*nom.AccountBlock) {
 		c.Fail("momentum ComputeHash()=%s is not the hash %s of the pre-image layout of the statement :: %s",
 			got, types.NewHash(pre), short(momentumStr(m)))
 	}
+	c.Emit("mom-pb %s | %s", momentumStr(m), guard(func() string {
+		data, err := m.Serialize()
+		if err != nil {
+			return "err"
+		}
+		return hx(data)
+	}))
 	c.Hit(fmt.Sprintf("mom-content-%s", bucket(len(m.Content))))
 	momentumRoundTrips(c, m, blocks)
 }
